@@ -206,6 +206,24 @@ def rule_cancel(ctx):
             ctx.ob(f"{attr} in {fn.name}: handle cleared after cancel", cleared, "handle not set to None after cancel()", fn.loc(n.ast))
             if not q.endswith("_cancelAutoPingTimeoutCall"):
                 ctx.ob(f"{attr} in {fn.name}: cancel only when armed", guarded, "cancel() on a handle that may be None", fn.loc(n.ast))
+    # "traffic in lieu of pong" means ANY data frame: the call of _cancelAutoPingTimeoutCall in onFrameEnd may depend on the frame being a
+    # data frame, on the option and on a timeout being armed -- on nothing else (not on FIN, not on the message state)
+    fn = ctx.program.func(f"{WSP}.onFrameEnd")
+    ctx.analysed(fn)
+    g, mf, res = an.get(fn)
+
+    def _texts(a):
+        if isinstance(a, str):
+            return [a] if ("." in a or a.isidentifier()) else []
+        return [x for y in a for x in _texts(y)] if isinstance(a, tuple) else []
+    _ALLOWED = {"opcode", "autoPingRestartOnAnyTraffic", "autoPingTimeoutCall"}
+    _KINDS = {"truth", "eq", "lt", "le", "gt", "ge", "ne", "in", "is", "c", "e"}
+    sites = [(n, c) for n in g.stmt_nodes() for c in node_calls(n) if norm.text(c.func) == "self._cancelAutoPingTimeoutCall"]
+    ctx.ob("onFrameEnd: a data frame cancels the pending ping timeout when autoPingRestartOnAnyTraffic is set", bool(sites), "call site missing", fn.loc())
+    for n, c in sites:
+        extra = sorted({t for a in mf.at(n) for t in _texts(a) if t not in _KINDS and t.split(".")[-1] not in _ALLOWED})
+        ctx.ob("onFrameEnd: every data frame counts as traffic (the cancellation does not depend on FIN or on the message state)", not extra,
+               f"the cancellation is additionally conditioned on {extra[:3]}", fn.loc(c))
     # pong branch: matching payload required, handle cleared
     fn = _pcf(ctx)
     g, mf, res = an.get(fn)
